@@ -163,7 +163,8 @@ config_out(int fd, uint64_t key)
 	simk_set_out(fd, key, 1, 0);
 	f = simk_get(fd);
 	if (vh_chance(&R, 1, 3)) {
-		f->out_fail_at = vh_below(&R, 20000);
+		f->out_fail_at = vh_chance(&R, 1, 3) ? vh_below(&R, 50) :
+		    vh_below(&R, 20000);
 		f->out_errno = errs[vh_below(&R, 4)];
 	}
 	switch (vh_below(&R, 3)) {
